@@ -15,7 +15,7 @@ def nontrivial(line):
 
 def histogram(line):
     f = _fields(line)
-    return ["M=" + f.get("M", "?"), "matrix:" + f.get("mk", "?"), "background:" + f.get("bgk", "?"),
+    return ["M=" + f.get("M", "?"), "abc:" + f.get("abc", "dna"), "ref:" + f.get("ref", "enum"), "matrix:" + f.get("mk", "?"), "background:" + f.get("bgk", "?"),
             "query:" + f.get("qk", "?"), "steps=" + f.get("steps", "?")]
 
 
@@ -32,7 +32,7 @@ SPEC = dict(
     search_n={"quick": 4000, "thorough": 40000},
     nontrivial=nontrivial,
     histogram=histogram,
-    rule='Same matrices/backgrounds as C12 (incl. the 8% cluster matrices shaped like the F13 witness, with extra p-values between the tails of the best few words; they raise the F13 hit rate from ~1/28000 to ~1/800 of those cases); per matrix 8-14 query p-values: exact tail values of attainable scores, values strictly between two consecutive tails, round values 0.5 .. 1e-4, random. One case = one (matrix, p): the initial window of approximate_score(p), every Iteration for 3..6 (thorough 7) refinement steps -- 9..11 steps for one case in ten, one in three for lattice-valued matrices -- or until convergence (score, range, granularity, converged) plus the private state after each step (as for C12, and the re-centred window), and score(p) when the iteration converged within the cap; all under catch_unwind. PROPFAIL: extracted checker c13_check (proved equivalent to the two clauses of the property, C13_check_sound) against the exact tails enumerated over all words in exact dyadic arithmetic; a panic is a PROPFAIL. Each PROPFAIL detail carries the model-computed window predicates of the theorems (window-exhausted = the whole window holds less mass than p, window-empty = no attainable score in the window, window-bottom-reached) and the input predicates wildcard-mass / positive-wildcard-cell, by which the remaining known finding (wildcard-mass-finite-cell) is identified; a failure on an adequate window (no tag) contradicts C13_score_step_bounds and is always reported. A PROPFAIL on a case where the implementation also differs from the model carries the tag model-differs and is never attributed to a known finding. DIFF: bit-exact comparison (integer geometry, windows, granularity, returned score; probabilities within 1e-9) with the extracted binary64 model, skipped after a knife-edge comparison (a cumulative sum within 1e-9 of p). Corpus (all must pass since the fixes): two F13 witnesses (one found by the generator, one hand-built minimal), the F26 panic witness, two wildcard-mass cases. Non-trivial: distinct (matrix, background, p) with p strictly between two attainable tail values. Theorems (coq/tfm/C13.v, all Qed): C13_approximate_score_bounds (the property for every iteration of approximate_score, no window hypothesis), C13_adequacy_preserved, C13_initial_window_ok, C13_approximate_score_no_panic31, C13_lookup_score_sound, C13_dist_exact, C13_score_step_bounds, C13_score_step_clause1, C13_score_run_bounds, C13_score_final_bounds, C13_next_window_ordered, C13_lookup_score_panic_sites, C13_lookup_score_panic_31_iff, C13_window_flags, C13_check_sound.',
+    rule='Same matrices/backgrounds as C12 (including the 1-in-8 protein / wide-motif cases with the convolution reference, C13_check_conv; for these also p-values between the tails of the best words and log-uniform p-values below 1e-12 that exceed the exact tail 1.5 d below the maximal score, p-values between the largest tails, 0.9 / 0.99 / 0.999999) (incl. the 8% cluster matrices shaped like the F13 witness, with extra p-values between the tails of the best few words; they raise the F13 hit rate from ~1/28000 to ~1/800 of those cases); per matrix 8-14 query p-values: exact tail values of attainable scores, values strictly between two consecutive tails, round values 0.5 .. 1e-4, random. One case = one (matrix, p): the initial window of approximate_score(p), every Iteration for 3..6 (thorough 7) refinement steps -- 9..11 steps for one case in ten, one in three for lattice-valued matrices -- or until convergence (score, range, granularity, converged) plus the private state after each step (as for C12, and the re-centred window), and score(p) when the iteration converged within the cap; all under catch_unwind. PROPFAIL: extracted checker c13_check (proved equivalent to the two clauses of the property, C13_check_sound) against the exact tails enumerated over all words in exact dyadic arithmetic; a panic is a PROPFAIL. Each PROPFAIL detail carries the model-computed window predicates of the theorems (window-exhausted = the whole window holds less mass than p, window-empty = no attainable score in the window, window-bottom-reached) and the input predicates wildcard-mass / positive-wildcard-cell, by which the remaining known finding (wildcard-mass-finite-cell) is identified; a failure on an adequate window (no tag) contradicts C13_score_step_bounds and is always reported. A PROPFAIL on a case where the implementation also differs from the model carries the tag model-differs and is never attributed to a known finding. DIFF: bit-exact comparison (integer geometry, windows, granularity, returned score; probabilities within 1e-9) with the extracted binary64 model, skipped after a knife-edge comparison (a cumulative sum within 1e-9 of p). Corpus (all must pass since the fixes): two F13 witnesses (one found by the generator, one hand-built minimal), the F26 panic witness, two wildcard-mass cases. Non-trivial: distinct (matrix, background, p) with p strictly between two attainable tail values. Theorems (coq/tfm/C13.v, all Qed): C13_approximate_score_bounds (the property for every iteration of approximate_score, no window hypothesis), C13_adequacy_preserved, C13_initial_window_ok, C13_approximate_score_no_panic31, C13_lookup_score_sound, C13_dist_exact, C13_score_step_bounds, C13_score_step_clause1, C13_score_run_bounds, C13_score_final_bounds, C13_next_window_ordered, C13_lookup_score_panic_sites, C13_lookup_score_panic_31_iff, C13_window_flags, C13_check_sound, C13_check_conv.',
     trusted_base=['Coq 8.16.1 kernel (coqc); vm_compute only in the non-vacuity Examples and in the refutation witness (coq/tfm/TfmRefute.v); no native_compute; Print Assumptions of every theorem of the property file: closed under the global context', 'Flocq 4.1.0 BinarySingleNaN (binary64 replay instance of the model) through LMBase.IEEE', 'extraction: ExtrOcamlBasic only (nat, Z, positive kept as extracted inductives); OCaml 4.13.1', "hand-written OCaml driver ocaml/tfm/driver.ml (parsing, construction of the checker's rows from the f32 cells, 1e-9 relative comparison of f64 sums, verdicts); the decision PROPFAIL itself is the extracted checker, proved equivalent to the property inequalities (C12_check_sound / C13_check_sound, C12_check_tail)", 'Rust harness harness/src/bin/tfm.rs (generator, catch_unwind, parser of the derived Debug rendering of PvaluesIterator/ScoresIterator used to read the private state)', 'modelled, not verified: lightmotif-tfmpvalue/src/lib.rs itself (hand-written Gallina model TfmModel.v tied by the bit-exact replay of the binary64 instance); IEEE rounding of x/g, of score/g and of the probability sums (the theorems are about the exact-rational instance of the same model text; the slack of one integer unit on either side of the bounds is ~1e9 times the rounding error of the replayed cases); HashMap iteration order (model iterates in key order); the row permutation of TfmPvalue::new (input of the model, validated per case)'],
     assumptions=['theorems: exact rational arithmetic (NumQ instance of the model), M >= 2, K >= 2 cells per row, finite symbol cells, g > 0, symbol frequencies >= 0 summing to 1 and wildcard frequency 0 (no wildcard mass; the table theorem C12_dist_exact itself is proved for any wildcard mass, bg_mass; what is left of finding F12 needs a finite wildcard cell together with wildcard mass), wildcard cells arbitrary (no longer read by the code), perm a permutation of 0..M (Permutation perm (seq 0 M)); results are stated for the matrix as given (Ptail is invariant under the row permutation, TfmPerm.tailS_perm_cells)', "the row permutation of TfmPvalue::new (sort_unstable_by) is an input of the model; the check validates that the implementation's permutation is a decreasing-range order (perm_ok); the theorems hold for every permutation", 'Ok-results only: the theorems speak about steps where the model returns Ok (every Panic site of the model is an observable panic of the implementation and is reported as PROPFAIL by the check)', 'C13 is no longer partial by refutation: since /repo 6b0495b window adequacy is an invariant (TfmAdequate.v); the step-level theorems keep the adequacy hypothesis for an arbitrary window, the run-level theorem from the initial window of approximate_score has none'],
 )
